@@ -3,8 +3,8 @@ import market_checks
 import py_checks
 
 PROP = "C08"
-LEAN_MODULES = ["PamsProps.C08", "PamsProps.SrcRound", "PamsProps.SrcAccept", "PamsProps.SrcCancel"]
-NAMESPACES = ["Pams.C08", "Pams.C08", "Pams.C08", "Pams.C08"]
+LEAN_MODULES = ["PamsProps.C08", "PamsProps.SrcRound", "PamsProps.SrcAccept", "PamsProps.SrcCancel", "PamsProps.SrcTick"]
+NAMESPACES = ["Pams.C08", "Pams.C08", "Pams.C08", "Pams.C08", "Pams.C08"]
 DRIVERS = ["Market", "Sim", "PyRun"]
 TRUSTED = [
     "modelled, not verified: heapq (abstracted to the sorted list; pop order compared on every state), Order.__eq__-based list.remove, IEEE doubles used only through <,== (monotone integer keys)",
